@@ -24,7 +24,9 @@ class C08(Prop):
     trusted_base = [
         "modelled verbatim: filter_diagnostics (Filter/Machine.v), parse_comment and FilterVisitor::visit_node (Filter/Comment.v)",
         "hook (cfg selene_verif): lint_filtering::verif exposes filter ranges, parse_comment, visit events, filter_diagnostics",
-        "full_moon trivia attachment and traversal order are taken from the real traversal (visit events), wf_filters is evaluated on every dump",
+        "full_moon trivia attachment and traversal order are taken from the real traversal (visit events), wf_filters is evaluated on every dump; "
+        "which tokens begin a piece of code (so that a filter comment before them must be claimed) is decided by the harness's own full_moon Visitor "
+        "(harness/src/c08.rs: Pieces), not by selene's NodeVisitor; first_code is measured by the harness",
         "Vec::sort_by_key is a stable sort (modelled as stable insertion sort)",
         "the hypothesis wf_ok of C08_filter_correct (ranges ordered; no end point of an earlier same-range run inside a later run; same-range filters consecutive) is evaluated on every dumped filter list: it is what real traversals produce, not proved of full_moon",
         "Generated/LintTable.v regenerated from use_lints! on every run",
